@@ -375,3 +375,33 @@ Definition subject_coeffsR (s : subject) (theta : R) : list R :=
   | SName n => coeffsR n theta
   | SKak p q => kak_coeffsR (Rabs (Q2R p * theta)) (Rabs (Q2R q * theta)) 0
   end.
+
+(* ------------------------------------------------------------------------------------ *)
+(* coordinate triples that describe the same gate up to local unitaries                    *)
+(* ------------------------------------------------------------------------------------ *)
+
+(* The Weyl-group moves on (a, b, c) — transpositions, sign change of two coordinates, shift of one
+   coordinate by pi/2 — closed under reflexivity, symmetry, transitivity; plus the sign change of a
+   single coordinate (mirror image of the gate), which is NOT a local equivalence but leaves the
+   58-term kappa unchanged as well.  Used as the EXPLICIT oracle premise of the c15_*_oracle theorems:
+   "TwoQubitWeylDecomposition returned a triple related in this way to the one proved for the gate". *)
+Inductive weyl_equiv : R * R * R -> R * R * R -> Prop :=
+| we_refl t : weyl_equiv t t
+| we_sym t u : weyl_equiv t u -> weyl_equiv u t
+| we_trans t u v : weyl_equiv t u -> weyl_equiv u v -> weyl_equiv t v
+| we_swap_ab a b c : weyl_equiv (a, b, c) (b, a, c)
+| we_swap_bc a b c : weyl_equiv (a, b, c) (a, c, b)
+| we_neg_ab a b c : weyl_equiv (a, b, c) ((- a)%R, (- b)%R, c)
+| we_shift_a a b c : weyl_equiv (a, b, c) ((a + PI / 2)%R, b, c)
+| we_mirror_a a b c : weyl_equiv (a, b, c) ((- a)%R, b, c).
+
+Definition kak3 (t : R * R * R) : list R := let '(a, b, c) := t in kak_coeffsR a b c.
+Definition weyl_coords {L} (d : weyl L) : R * R * R := (w_a d, w_b d, w_c d).
+
+(* registered names whose basis is the rotation list at a FIXED angle q*pi with q <> 0 (cs, csdg, csx, csxdg):
+   their (cos, sin) point is irrational, so they have no instance in the Q-level table theorems *)
+Definition fixed_angle (name : string) : bool :=
+  match family_of_name name with
+  | FRot _ q => negb (Qeq_bool q (0#1)%Q)
+  | _ => false
+  end.
